@@ -18,10 +18,11 @@ mido = bootstrap()
 import mido.midifiles.midifiles as mfmod  # noqa: E402
 from mido import MidiFile, MidiTrack, MetaMessage, Message  # noqa: E402
 
-OBS = ('iter', 'length', 'merged', 'play', 'play_abandon', 'save', 'save_fault')
+OBS = ('iter', 'length', 'merged', 'merged_mutate', 'play', 'play_abandon', 'save', 'save_fault')
 EDITS = ('add_track', 'tracks_append', 'tracks_insert', 'tracks_pop', 'tracks_set', 'tracks_replace',
          'track_append', 'track_insert', 'track_extend', 'track_pop', 'track_sort', 'track_set',
-         'msg_time', 'msg_note', 'tempo_set', 'track_name', 'set_type', 'set_tpb')
+         'msg_time', 'msg_note', 'tempo_set', 'track_name', 'set_type', 'set_tpb', 'track_slice_del', 'track_iadd',
+         'track_clear')
 
 
 def mk(spec):
@@ -86,7 +87,8 @@ class History(BaseEngine):
         p_obs = pick(rng, (0.2, 0.4, 0.6))
         for _ in range(rng.randint(2, 16)):
             if rng.random() < p_obs:
-                o = weighted(rng, (('iter', 3), ('length', 3), ('merged', 2), ('play', 1.5), ('play_abandon', 1),
+                o = weighted(rng, (('iter', 3), ('length', 3), ('merged', 2), ('merged_mutate', 1), ('play', 1.5),
+                                   ('play_abandon', 1), ('play_start', 1), ('iter_start', 0.7), ('resume', 1.5),
                                    ('save', 1.5), ('save_fault', 0.7)))
                 ops.append(['obs', o, rng.randrange(6)])
             else:
@@ -94,7 +96,8 @@ class History(BaseEngine):
                                    ('tracks_set', 0.7), ('tracks_replace', 0.7), ('track_append', 3),
                                    ('track_insert', 2), ('track_extend', 1), ('track_pop', 1.5), ('track_sort', 0.5),
                                    ('track_set', 1), ('msg_time', 2.5), ('msg_note', 1), ('tempo_set', 1.5),
-                                   ('track_name', 0.7), ('set_type', 0.7), ('set_tpb', 1)))
+                                   ('track_name', 0.7), ('set_type', 0.7), ('set_tpb', 1), ('track_slice_del', 0.7),
+                                   ('track_iadd', 0.7), ('track_clear', 0.4)))
                 ops.append(['edit', e, rng.randrange(1000), rng.randrange(1000),
                             [gen_msg(rng) for _ in range(rng.randint(1, 3))],
                             pick(rng, (0, 1, 7, 480, 1000, 96)), pick(rng, (0, 1, 2, 1, 1))])
@@ -154,6 +157,18 @@ class History(BaseEngine):
                 return ('ok', repr(mf.length))
             if kind == 'merged':
                 return ('ok', [repr(m) for m in mf.merged_track])
+            if kind == 'merged_mutate':
+                # what the caller does with the returned track is the caller's business: it must not
+                # leak into later observations
+                mt = mf.merged_track
+                out = [repr(m) for m in mt]
+                for m in mt:
+                    if not m.is_meta:
+                        m.time = 7777
+                mt.append(Message('note_on', note=arg, time=arg))
+                if len(mt) > 2:
+                    del mt[0]
+                return ('ok', out)
             if kind in ('play', 'play_abandon'):
                 clock = Clock()
                 mfmod.time = clock
@@ -227,7 +242,7 @@ class History(BaseEngine):
             if model is not None:
                 model['tracks'] = [t for j, t in enumerate(model['tracks']) if (a >> j) & 1]
         elif e in ('track_append', 'track_insert', 'track_extend', 'track_pop', 'track_sort', 'track_set',
-                   'msg_time', 'msg_note', 'tempo_set', 'track_name'):
+                   'msg_time', 'msg_note', 'tempo_set', 'track_name', 'track_slice_del', 'track_iadd', 'track_clear'):
             if not nt:
                 return
             ti = a % nt
@@ -257,6 +272,19 @@ class History(BaseEngine):
                         del tr[i]
                     if mtr is not None:
                         mtr.pop(i)
+            elif e == 'track_slice_del':
+                lo, hi = sorted((b % (n + 1), (b // 7) % (n + 1)))
+                del tr[lo:hi]
+                if mtr is not None:
+                    del mtr[lo:hi]
+            elif e == 'track_iadd':
+                tr += [m.copy() for m in new]
+                if mtr is not None:
+                    mtr += [m.copy() for m in new]
+            elif e == 'track_clear':
+                tr.clear()
+                if mtr is not None:
+                    mtr.clear()
             elif e == 'track_sort':
                 tr.sort(key=lambda m: m.time)
                 if mtr is not None:
@@ -317,9 +345,11 @@ class History(BaseEngine):
         last_obs = None
         edits_since = []
         observed = False
+        susp = {}
         for op in plan['ops']:
             stats['steps'] += 1
             if op[0] == 'edit':
+                self._drop(susp)     # what a suspended observation does after an edit is not defined
                 try:
                     self._apply(a, model, op, stats)
                     self._apply(b, None, op, stats)
@@ -331,7 +361,7 @@ class History(BaseEngine):
                 log.ev('edit', op[1])
                 if observed:
                     stats['probe:edit_after_observation'] += 1
-                    if last_obs in ('iter', 'merged', 'play', 'play_abandon'):
+                    if last_obs in ('iter', 'merged', 'merged_mutate', 'play', 'play_abandon'):
                         stats['probe:edit_after_iteration'] += 1
                     if last_obs == 'length':
                         stats['probe:edit_after_length'] += 1
@@ -341,6 +371,66 @@ class History(BaseEngine):
                         stats['probe:play_abandoned_then_edited'] += 1
                 continue
             kind, arg = op[1], op[2]
+            if kind in ('play_start', 'iter_start'):
+                # an observation that stays in progress: take `arg` messages and keep the generator
+                self._drop(susp)
+                try:
+                    if kind == 'play_start':
+                        clk = Clock()
+                        mfmod.time = clk
+                        g = a.play(meta_messages=True, now=clk.now)
+                    else:
+                        clk = None
+                        g = iter(a)
+                    got = []
+                    for _ in range(arg):
+                        m = next(g, None)
+                        if m is None:
+                            break
+                        got.append(repr(m))
+                    susp.update({'kind': kind, 'gen': g, 'clock': clk, 'got': got})
+                except Exception as e:
+                    susp.clear()
+                    log.ev('obs', kind, 'raised', type(e).__name__)
+                finally:
+                    mfmod.time = self._saved
+                log.ev('obs', kind, len(susp.get('got', [])))
+                stats['obs:' + kind] += 1
+                continue
+            if kind == 'resume':
+                if not susp:
+                    continue
+                try:
+                    if susp['clock'] is not None:
+                        mfmod.time = susp['clock']
+                    rest = [repr(m) for m in susp['gen']]
+                    raised = None
+                except Exception as e:
+                    rest = []
+                    raised = type(e).__name__
+                finally:
+                    mfmod.time = self._saved
+                if raised is not None:
+                    whole_a = ('raised', raised)
+                elif susp['kind'] == 'iter_start':
+                    whole_a = ('ok', susp['got'] + rest)
+                else:
+                    whole_a = ('ok', susp['got'] + rest, repr(susp['clock'].t), [repr(d) for d in susp['clock'].slept])
+                ref_kind = 'iter' if susp['kind'] == 'iter_start' else 'play'
+                whole_f = self._observe(self._fresh(model), ref_kind, 1)
+                log.ev('obs', 'resume', susp['kind'], len(rest))
+                stats['probe:suspended_observation_resumed'] += 1
+                if susp.get('others'):
+                    stats['probe:observation_inside_suspended_observation'] += 1
+                susp.clear()
+                if whole_a != whole_f:
+                    raise Violation(f'stale:resumed-{ref_kind}',
+                                    f'a {ref_kind} that was suspended while other observations were made continued '
+                                    f'differently from an uninterrupted one: {self._short(whole_a)} vs fresh '
+                                    f'{self._short(whole_f)}')
+                continue
+            if susp:
+                susp['others'] = susp.get('others', 0) + 1
             before = self._contents(a)
             res_a = self._observe(a, kind, arg)
             res_f = self._observe(self._fresh(model), kind, arg)
@@ -362,6 +452,7 @@ class History(BaseEngine):
             observed = True
             edits_since = []
             stats['obs:' + kind] += 1
+        self._drop(susp)
         # twin: B saw the same edits but was never observed
         for kind in ('iter', 'length', 'merged', 'play', 'save'):
             ra = self._observe(a, kind, 1)
@@ -374,6 +465,12 @@ class History(BaseEngine):
         log.ev('final', self._short(self._observe(a, 'length', 0)))
         if any(op[0] == 'edit' for op in plan['ops']) and any(op[0] == 'obs' for op in plan['ops']):
             stats['_nontrivial'] += 1
+
+    def _drop(self, susp):
+        g = susp.get('gen')
+        if g is not None and hasattr(g, 'close'):
+            g.close()
+        susp.clear()
 
     def _short(self, res):
         s = repr(res)
@@ -417,7 +514,8 @@ class History(BaseEngine):
 
     def probe_names(self, prop):
         return ['edit_after_observation', 'edit_after_iteration', 'edit_after_length', 'add_track_after_observation',
-                'observation_failed_then_observed_again', 'play_abandoned_then_edited']
+                'observation_failed_then_observed_again', 'play_abandoned_then_edited',
+                'suspended_observation_resumed', 'observation_inside_suspended_observation']
 
 
 ENGINE = History()
